@@ -1,4 +1,4 @@
-/- C16 driver: `C16 run <cfg> [op,…]` → per-step event lists of the model; `C16 spec [ev,…]` → violated clauses
+/- C16 driver: `C16 run <cfg> [op,…]` → per-step event lists of the model; `C16 spec [ev,…] [quiescent]` → violated clauses
    of an observed history (oldest first on the wire). -/
 import TornadoModel.Base.Wire
 import TornadoModel.C16.Spec
@@ -105,6 +105,10 @@ def handle (toks : List String) : String :=
     match V.parse arg >>= (·.list?) >>= (·.mapM decEv) with
     | some evs => ok [.list ((Spec.violated evs.reverse).map V.atom)]
     | none => err "bad-arg"
+  | ["spec", arg, q] =>
+    match V.parse arg >>= (·.list?) >>= (·.mapM decEv), V.parse q >>= V.bool? with
+    | some evs, some q => ok [.list ((Spec.violatedQ evs.reverse q).map V.atom)]
+    | _, _ => err "bad-arg"
   | _ => err "bad-line"
 
 end TornadoModel.C16.Drv
